@@ -20,14 +20,15 @@ NTS = {'NT1': NT1, 'NT2': NT2, 'NT3': NT3}
 
 @struct.dataclass
 class DC1:
+  # data fields with and without defaults (the harness always passes every field)
   p: object
-  q: object
+  q: object = 0.5
   name: str = struct.field(pytree_node=False, default='static')
 
 
 @struct.dataclass
 class DC2:
-  w: object
+  w: object = struct.field(default_factory=lambda: np.zeros((2,)))
 
 
 @struct.dataclass
